@@ -308,7 +308,10 @@ def rule_enum(chk, prog, tier):
         for b in B:
             cases.append(([a, b], None))
             if tier == 'thorough': cases.append(([a, b, None], None)); cases.append(([a, None, b], None))
+    # the first enumerator without a value is 0
+    cases += [([None], None), ([None, None], None), ([None, -1], None), ([None, 2 ** 63], None)]
     for fx in ('uchar', 'schar', 'short', 'ushort', 'int', 'uint', 'long', 'ulong'):
+        cases += [([None], fx), ([None, None], fx), ([None, 5], fx), ([None, None, None], fx)]
         for a in B:
             if fits(a, 8, True) or fits(a, 8, False):
                 cases.append(([a], fx)); cases.append(([a, None], fx))
